@@ -1978,6 +1978,100 @@ func (f *Flow) RangeOfX(n ast.Node) *ast.RangeStmt {
 
 var nonNilFuncCache = map[*types.Func]bool{}
 
+var nilPreservingCache = map[*types.Func]int{}
+
+// nilPreservingErrFunc: fn is a wrapper of the analysed module (`moduleError`, `wrapClientErr`) with a single error result
+// that returns nil only inside `if p == nil { return nil }` for an error parameter p and a constructed error on every other
+// return: its result is non-nil whenever argument p is. The index of p is returned, -1 if fn is not of that shape.
+func nilPreservingErrFunc(fn *types.Func) int {
+	if fn == nil || theProg == nil {
+		return -1
+	}
+	if v, ok := nilPreservingCache[fn]; ok {
+		return v
+	}
+	nilPreservingCache[fn] = -1
+	sig, _ := fn.Type().(*types.Signature)
+	if sig == nil || sig.Results().Len() != 1 || !isErrorType(sig.Results().At(0).Type()) {
+		return -1
+	}
+	d := theProg.DeclOf(fn)
+	if d == nil || d.Decl.Body == nil {
+		return -1
+	}
+	info := d.Info()
+	guarded := map[*ast.ReturnStmt]int{}
+	for _, st := range d.Decl.Body.List {
+		ifs, ok := st.(*ast.IfStmt)
+		if !ok || ifs.Init != nil || ifs.Else != nil || len(ifs.Body.List) != 1 {
+			continue
+		}
+		ret, ok := ifs.Body.List[0].(*ast.ReturnStmt)
+		if !ok || len(ret.Results) != 1 || !isNilIdent(info, ret.Results[0]) {
+			continue
+		}
+		be, ok := ast.Unparen(ifs.Cond).(*ast.BinaryExpr)
+		if !ok || be.Op != token.EQL {
+			continue
+		}
+		var pe ast.Expr
+		if isNilIdent(info, be.Y) {
+			pe = be.X
+		} else if isNilIdent(info, be.X) {
+			pe = be.Y
+		}
+		if pe == nil {
+			continue
+		}
+		o := objOf(info, pe)
+		for i := 0; i < sig.Params().Len(); i++ {
+			if types.Object(sig.Params().At(i)) == o && isErrorType(sig.Params().At(i).Type()) {
+				guarded[ret] = i
+			}
+		}
+	}
+	if len(guarded) != 1 {
+		return -1
+	}
+	idx := -1
+	for _, i := range guarded {
+		idx = i
+	}
+	// the parameter is not reassigned
+	reassigned := false
+	ast.Inspect(d.Decl.Body, func(x ast.Node) bool {
+		if as, ok := x.(*ast.AssignStmt); ok {
+			for _, l := range as.Lhs {
+				if objOf(info, l) == types.Object(sig.Params().At(idx)) {
+					reassigned = true
+				}
+			}
+		}
+		return true
+	})
+	if reassigned {
+		return -1
+	}
+	all, n := true, 0
+	inspectNoLit(d.Decl.Body, func(x ast.Node) bool {
+		if ret, ok := x.(*ast.ReturnStmt); ok {
+			if _, g := guarded[ret]; g {
+				return true
+			}
+			n++
+			if len(ret.Results) != 1 || !nonNilErrExpr(info, ret.Results[0]) {
+				all = false
+			}
+		}
+		return true
+	})
+	if all && n > 0 {
+		nilPreservingCache[fn] = idx
+		return idx
+	}
+	return -1
+}
+
 // alwaysNonNilErrFunc: fn is a function of the analysed module with a single error result whose every return statement
 // returns a surely non-nil error expression (a constructor).
 func alwaysNonNilErrFunc(fn *types.Func, depth int) bool {
